@@ -271,6 +271,8 @@ Inductive label :=
 | LReady (s : nat)       (* the job became READY (all dependencies DONE) *)
 | LDepFail (s : nat)     (* a dependency failed *)
 | LSLock (s : nat)
+| LAbort (s : nat)       (* aio_start gives up after taking the job lock (a token could not be taken):
+                           the lock is released and the job waits to be READY again *)
 | LTrunc (s : nat)
 | LWrite (s : nat)
 | LSpawn (s : nat)
@@ -295,7 +297,7 @@ Inductive label :=
 Definition lbl_sched (l : label) : option nat :=
   match l with
   | LSubmit s | LTest1 s | LPid s | LAdoptEnd s | LTest2 s | LReady s | LDepFail s | LSLock s
-  | LTrunc s | LWrite s | LSpawn s | LCreatePid s | LWritePid s | LSUnlock s | LWaitEnd s | LCrash s => Some s
+  | LAbort s | LTrunc s | LWrite s | LSpawn s | LCreatePid s | LWritePid s | LSUnlock s | LWaitEnd s | LCrash s => Some s
   | _ => None
   end.
 
@@ -340,6 +342,11 @@ Definition lstep_with (fixed : bool) (l : label) (st : jobdir) : option jobdir :
       match scheds st s, lock st with
       | SLock, None => Some (set_sched (set_lock st (Some (ASched s))) s STrunc)
       | _, _ => None
+      end
+  | LAbort s =>
+      match scheds st s with
+      | STrunc => Some (set_sched (set_lock st (release (ASched s) (lock st))) s SReady)
+      | _ => None
       end
   | LTrunc s => match scheds st s with STrunc => Some (set_sched (set_script st SEmpty) s SWrite) | _ => None end
   | LWrite s => match scheds st s with SWrite => Some (set_sched (set_script st SFull) s SSpawn) | _ => None end
